@@ -79,24 +79,28 @@ theorem good_verdict_means_match (E : XExt) (s : Store) (hv : s.verdict = none)
 
 /-! ### from "the bytes changed" to "the check fails" (the CRC law) -/
 
-/-- the CRC caveat: equal checksums mean equal bytes -/
-def NoCollision (E : XExt) : Prop := ∀ x y : Bytes, E.crc x = E.crc y → x = y
+/-- `a` and `b` are different byte strings with the same checksum: a concrete CRC collision.
+No 32-bit checksum is collision free, so nothing below ASSUMES the absence of collisions; each
+statement ends in "… or these two byte strings collide". -/
+def Collide (E : XExt) (a b : Bytes) : Prop := a ≠ b ∧ E.crc a = E.crc b
 
 /-- **corrupted_data_fails_check.** If a data file's bytes differ from the content its sidecar
-was computed from, the store-wide check fails (no CRC collision). -/
-theorem corrupted_data_fails_check (E : XExt) (hc : NoCollision E) (fs : List DataFile) (f : DataFile)
+was computed from, the store-wide check fails — or the current and the original bytes are a
+concrete CRC collision. -/
+theorem corrupted_data_fails_check (E : XExt) (fs : List DataFile) (f : DataFile)
     (hf : f ∈ fs) (n : Nat) (hs : f.side = .crc n) (orig : Bytes) (ho : E.crc orig = n)
-    (hne : f.content ≠ orig) : checkOk E fs = false := by
-  have hbad : fileCrcOk E f = false := by
-    simp only [fileCrcOk, hs]
-    have : E.crc f.content ≠ n := fun h => hne (hc _ _ (by rw [h, ho]))
-    simpa using this
-  cases hk : checkOk E fs with
-  | false => rfl
-  | true =>
-    simp only [checkOk, Bool.and_eq_true, List.all_eq_true] at hk
-    have := hk.2 f hf
-    rw [hbad] at this; cases this
+    (hne : f.content ≠ orig) : checkOk E fs = false ∨ Collide E f.content orig := by
+  by_cases hcr : E.crc f.content = n
+  · exact Or.inr ⟨hne, by rw [hcr, ho]⟩
+  · left
+    have hbad : fileCrcOk E f = false := by
+      simp only [fileCrcOk, hs]; simpa using hcr
+    cases hk : checkOk E fs with
+    | false => rfl
+    | true =>
+      simp only [checkOk, Bool.and_eq_true, List.all_eq_true] at hk
+      have := hk.2 f hf
+      rw [hbad] at this; cases this
 
 /-- **corrupted_sidecar_fails_check.** If a sidecar is unreadable, or records a checksum other
 than that of the (intact) data file, the store-wide check fails. -/
@@ -115,15 +119,34 @@ theorem corrupted_sidecar_fails_check (E : XExt) (fs : List DataFile) (f : DataF
     have := hk.2 f hf
     rw [hbad] at this; cases this
 
-/-- **corrupt_data_at_start_detected.** The two together with `corrupt_at_open_detected`: a
-changed byte in any data file, present when the store is created, makes whichever consumer
-runs first refuse. -/
-theorem corrupt_data_at_start_detected (E : XExt) (hc : NoCollision E) (s : Store) (hv : s.verdict = none)
+/-- **corrupt_data_at_start_detected.** A changed byte in any data file, present when the store
+is created, makes whichever consumer runs first refuse without touching a file — or the changed
+and the original bytes collide under the CRC. -/
+theorem corrupt_data_at_start_detected (E : XExt) (s : Store) (hv : s.verdict = none)
     (f : DataFile) (hf : f ∈ s.files) (n : Nat) (hs : f.side = .crc n) (orig : Bytes) (ho : E.crc orig = n)
     (hne : f.content ≠ orig) (c : Consumer) :
+    ((consume E s c).2 = false ∧ (consume E s c).1.files = s.files) ∨ Collide E f.content orig := by
+  rcases corrupted_data_fails_check E s.files f hf n hs orig ho hne with h | h
+  · have := corrupt_at_open_detected E s hv h c
+    exact Or.inl ⟨this.1, this.2.2⟩
+  · exact Or.inr h
+
+/-- **corrupt_sidecar_at_start_detected.** An unreadable sidecar, or one that records a checksum
+other than that of the (intact) data file, present when the store is created, makes whichever
+consumer runs first refuse without touching a file. -/
+theorem corrupt_sidecar_at_start_detected (E : XExt) (s : Store) (hv : s.verdict = none)
+    (f : DataFile) (hf : f ∈ s.files)
+    (h : f.side = .bad ∨ ∃ n, f.side = .crc n ∧ n ≠ E.crc f.content) (c : Consumer) :
     (consume E s c).2 = false ∧ (consume E s c).1.files = s.files :=
-  let h := corrupt_at_open_detected E s hv (corrupted_data_fails_check E hc s.files f hf n hs orig ho hne) c
-  ⟨h.1, h.2.2⟩
+  let r := corrupt_at_open_detected E s hv (corrupted_sidecar_fails_check E s.files f hf h) c
+  ⟨r.1, r.2.2⟩
+
+/-- the restated lemma at the real checksum: CRC-32C (the driver's bitwise implementation) -/
+def exFile : DataFile := ⟨[83, 81, 76, 1], .crc (RqModel.SnapStream.crc32c [83, 81, 76, 0]), true, true, 0⟩
+
+example : checkOk (drvX []) [exFile] = false ∨ Collide (drvX []) exFile.content [83, 81, 76, 0] :=
+  corrupted_data_fails_check (drvX []) [exFile] exFile (List.mem_singleton.2 rfl)
+    (RqModel.SnapStream.crc32c [83, 81, 76, 0]) rfl [83, 81, 76, 0] rfl (by decide)
 
 /-! ### the consumers are the programs the source executes -/
 
@@ -260,10 +283,11 @@ cached — if `Open` produces a stream and the receiver accepts it, then every t
 file whose sidecar records a CRC has exactly that CRC; so (no collision) it is byte for
 byte the content `orig` that the record was computed from. Altered bytes are not installed
 or restored. -/
-theorem late_corruption_never_installed (E : XExt) (hc : NoCollision E) (s : Store)
+theorem late_corruption_never_installed (E : XExt) (s : Store)
     (hdrs : List FileHdr) (files : List Bytes)
     (ho : (openNewest E s).2 = some (hdrs, files)) (ha : receiverAccepts E hdrs files = true) :
-    ∀ f ∈ chainFiles s, ∀ n, f.side = .crc n → ∀ orig, E.crc orig = n → f.content = orig := by
+    ∀ f ∈ chainFiles s, ∀ n, f.side = .crc n → ∀ orig, E.crc orig = n →
+      f.content = orig ∨ Collide E f.content orig := by
   have hfiles : (ensureVerified E s).1.files = s.files := (ensure_sets_verdict E s).2
   unfold openNewest at ho
   simp only at ho
@@ -278,7 +302,9 @@ theorem late_corruption_never_installed (E : XExt) (hc : NoCollision E) (s : Sto
   intro f hf n hs orig ho
   have := accepts_iff E _ ha f hf
   simp only [headerOf, hs] at this
-  exact hc _ _ (by rw [this, ho])
+  by_cases e : f.content = orig
+  · exact Or.inl e
+  · exact Or.inr ⟨e, by rw [this, ho]⟩
 
 /-- the files `Open` streams are the chain files' current bytes, and the header carries the
 RECORDED checksum, not one recomputed from the current bytes -/
@@ -308,14 +334,15 @@ happened to the store, if `Open` yields a stream — the framing of the chain fi
 header `hb` that protobuf decodes to the sizes and RECORDED checksums — and C10's `Restore`
 accepts that stream, then every transferred file with a recorded CRC is byte for byte the
 content the record was computed from. -/
-theorem late_corruption_never_restored (X : XExt) (hc : NoCollision X) (s : Store)
+theorem late_corruption_never_restored (X : XExt) (s : Store)
     (decode : Bytes → Option SnapHeader) (hb : Bytes) (hl : hb.length < 4294967296)
     (dbf : DataFile) (walfs : List DataFile) (hchain : chainFiles s = dbf :: walfs)
     (ho : (openNewest X s).2.isSome = true)
     (hd : decode hb = some ⟨1, .full (some (headerOf X dbf)) (walfs.map (headerOf X))⟩)
     (hr : restore (toExt X decode) (frame hb (dbf.content :: walfs.map (·.content))) =
       .ok dbf.content (walfs.map (·.content))) :
-    ∀ f ∈ chainFiles s, ∀ n, f.side = .crc n → ∀ orig, X.crc orig = n → f.content = orig := by
+    ∀ f ∈ chainFiles s, ∀ n, f.side = .crc n → ∀ orig, X.crc orig = n →
+      f.content = orig ∨ Collide X f.content orig := by
   have hacc := (receiver_is_restore X decode hb dbf.content (walfs.map (·.content)) (headerOf X dbf)
     (walfs.map (headerOf X)) hl hd rfl (sizesMatch_headerOf X walfs)).1 hr
   cases hopen : (openNewest X s).2 with
@@ -323,9 +350,24 @@ theorem late_corruption_never_restored (X : XExt) (hc : NoCollision X) (s : Stor
   | some v =>
     obtain ⟨hdrs, files⟩ := v
     have hof := open_header_is_recorded X s hdrs files hopen
-    apply late_corruption_never_installed X hc s hdrs files hopen
+    apply late_corruption_never_installed X s hdrs files hopen
     rw [hof.1, hof.2, hchain]
     simpa using hacc
+
+/-- **late_corruption_never_installed_by_sink.** The follower does not run `Restore` but the
+Sink: the same statement for C10's `install` (any split into non-empty writes reduces to the
+single write by `C10.split_independent`), through `C10.install_implies_restore`. -/
+theorem late_corruption_never_installed_by_sink (X : XExt) (s : Store)
+    (decode : Bytes → Option SnapHeader) (hb : Bytes) (hl : hb.length < 4294967296)
+    (dbf : DataFile) (walfs : List DataFile) (hchain : chainFiles s = dbf :: walfs)
+    (ho : (openNewest X s).2.isSome = true)
+    (hd : decode hb = some ⟨1, .full (some (headerOf X dbf)) (walfs.map (headerOf X))⟩) (due : Bool)
+    (hi : install (toExt X decode) due [frame hb (dbf.content :: walfs.map (·.content))] =
+      .installed dbf.content (walfs.map (·.content))) :
+    ∀ f ∈ chainFiles s, ∀ n, f.side = .crc n → ∀ orig, X.crc orig = n →
+      f.content = orig ∨ Collide X f.content orig :=
+  late_corruption_never_restored X s decode hb hl dbf walfs hchain ho hd
+    (C10.install_implies_restore (toExt X decode) due _ _ _ hi).1
 
 /-- **reap_never_launders.** A reap that consolidates WAL files (and therefore writes a fresh
 checksum) only does so after every file it consumes matched its recorded checksum at that
@@ -415,10 +457,61 @@ theorem reap_single_snapshot_noop (E : XExt) (s : Store) (h1 : snapCount s.files
   · split <;> simp
   · rw [hfiles]; simp [h1]
 
-/-! ### non-vacuity -/
 def exE : XExt := { crc := fun b => (b.map (·.toNat)).sum, validDb := fun _ => true, validWal := fun _ => true,
                     replay := fun d ws => d ++ ws.flatten }
 
+
+/-! ### resuming an interrupted reap plan -/
+
+/-- **resume_checks_remaining_wals.** A resumed plan consolidates only after every WAL file it
+has yet to consume matched its recorded checksum: corruption of those files present when the
+node starts is detected before the resumed reap folds them in. -/
+theorem resume_checks_remaining_wals (E : XExt) (s : Store) (k : Nat) (hp : s.plan = some k)
+    (db : DataFile) (wals : List DataFile) (hc : chainFiles s = db :: wals)
+    (h : (resumePlan E s).2 = .ok) :
+    ∀ f ∈ wals, ∀ n, f.side = .crc n → E.crc f.content = n := by
+  simp only [resumePlan, hp, hc] at h
+  have hall' : (if k = 0 then db :: wals else wals).all (fileCrcOk E) = true := by
+    cases hb : (if k = 0 then db :: wals else wals).all (fileCrcOk E) with
+    | true => rfl
+    | false => rw [hb] at h; simp at h
+  intro f hf n hs
+  have hmem : f ∈ (if k = 0 then db :: wals else wals) := by
+    split
+    · exact List.mem_cons_of_mem _ hf
+    · exact hf
+  have := (List.all_eq_true.1 hall') f hmem
+  simpa [fileCrcOk, hs] using this
+
+/-- the statement one would like for the database file as well -/
+def resume_checks_db_full : Prop :=
+  ∀ (E : XExt) (s : Store) (k : Nat) (db : DataFile) (wals : List DataFile), s.plan = some k →
+    chainFiles s = db :: wals → (resumePlan E s).2 = .ok → ∀ n, db.side = .crc n → E.crc db.content = n
+
+/-- it holds while the interrupted run had not started the checkpoint (nothing consumed) -/
+theorem resume_checks_db_partial (E : XExt) (s : Store) (db : DataFile) (wals : List DataFile)
+    (hp : s.plan = some 0) (hc : chainFiles s = db :: wals) (h : (resumePlan E s).2 = .ok) :
+    ∀ n, db.side = .crc n → E.crc db.content = n := by
+  simp only [resumePlan, hp, hc, if_true] at h
+  have hall' : (db :: wals).all (fileCrcOk E) = true := by
+    cases hb : (db :: wals).all (fileCrcOk E) with
+    | true => rfl
+    | false => rw [hb] at h; simp at h
+  intro n hs
+  have := (List.all_eq_true.1 hall') db (by simp)
+  simpa [fileCrcOk, hs] using this
+
+/-- **witness**: once the interrupted run has checkpointed a WAL into the database, the
+database no longer matches any record (its sidecar is rewritten only at the end of the plan),
+so the resume cannot tell a half-checkpointed database from a corrupted one and goes ahead -/
+theorem resume_checks_db_witness : ¬ resume_checks_db_full := by
+  intro h
+  have := h exE { files := [⟨[9, 9], .crc 3, true, true, 0⟩, ⟨[4], .crc 4, false, true, 1⟩], plan := some 1 }
+    1 ⟨[9, 9], .crc 3, true, true, 0⟩ [⟨[4], .crc 4, false, true, 1⟩] rfl (by decide) (by decide) 3 rfl
+  revert this
+  decide
+
+/-! ### non-vacuity -/
 example :
     let good : Store := { files := [⟨[1, 2], .crc 3, true, true, 0⟩, ⟨[4], .crc 4, false, true, 1⟩] }
     let bad : Store := { files := [⟨[1, 3], .crc 3, true, true, 0⟩, ⟨[4], .crc 4, false, true, 1⟩] }
